@@ -29,6 +29,50 @@ TRUSTED_BASE = [
 ]
 
 
+def _explore_one(arg):
+    """worker: explore one contract, return picklable results"""
+    pid, index = arg
+    sys.path.insert(0, VERIF)
+    mod = importlib.import_module(f"contracts.{pid.lower()}")
+    c = getattr(mod, "CONTRACTS")[index]
+    registry = {}
+    for r in getattr(mod, "REGISTRY", []):  # callees called by contract (modular), deliberately listed
+        registry.setdefault(r.target, r)
+    out = {}
+    try:
+        info = extract.find(c.target)
+    except extract.ExtractError as err:
+        return {"extract_error": str(err)}
+    try:
+        x = Explorer(c, registry, max_paths=c.max_paths).explore()
+    except Exception as err:  # engine exception: undecided, never a violation
+        return {"engine_error": f"{type(err).__name__}: {err}", "trace": traceback.format_exc()[-800:]}
+    out["fdesc"] = info.describe()
+    out["stats"] = x.stats
+    out["exits"] = x.exits
+    out["unsupported"] = x.unsupported
+    out["obligations"] = [(ob.kind, ob.descr, ob.lineno, ob.smt2()) for ob in x.obligations]
+    out["trivial"] = list(x.trivial)
+    out["canary"] = None
+    if x.obligations:
+        ob = x.obligations[-1]
+        out["canary"] = Obligation("canary", "canary", "path condition satisfiable", ob.assumptions, z3.BoolVal(False)).smt2()
+    return out
+
+
+def _explore_parallel(pid, indexes):
+    if not indexes:
+        return []
+    args = [(pid, i) for i in indexes]
+    workers = min(len(args), int(os.environ.get("PYVC_WORKERS", "14")))
+    if workers <= 1:
+        return [_explore_one(a) for a in args]
+    from concurrent.futures import ProcessPoolExecutor
+
+    with ProcessPoolExecutor(max_workers=workers) as pool:
+        return list(pool.map(_explore_one, args))
+
+
 class Finite:
     """a complete finite check of the real (extracted) code: ``run() -> dict(cases=int, failures=[...], samples=[...])``;
     counted as one obligation per named sub-check, back end 'finite-exec'."""
@@ -88,46 +132,42 @@ def run_property(pid, tier="quick", seed=0, only=None, verbose=False):
     canaries = []
     trivial_count = 0
 
-    # ---- proofs --------------------------------------------------------------------------
-    for c in contracts:
-        try:
-            info = extract.find(c.target)
-        except extract.ExtractError as err:
-            undecided.append({"contract": c.id, "reason": f"extract: {err}"})
+    # ---- proofs (contracts explored in parallel worker processes; z3 terms do not cross processes, so the
+    #      workers return SMT-LIB text) -------------------------------------------------------------
+    all_contracts = getattr(mod, "CONTRACTS", [])
+    idx = [all_contracts.index(c) for c in contracts]
+    explored = _explore_parallel(pid, idx)
+    for c, ex in zip(contracts, explored):
+        if ex.get("extract_error"):
+            undecided.append({"contract": c.id, "reason": f"extract: {ex['extract_error']}"})
             continue
-        try:
-            x = Explorer(c, registry, max_paths=c.max_paths).explore()
-        except Exception as err:  # engine exception: undecided, never a violation
-            undecided.append({"contract": c.id, "reason": f"engine exception {type(err).__name__}: {err}", "trace": traceback.format_exc()[-800:]})
+        if ex.get("engine_error"):
+            undecided.append({"contract": c.id, "reason": f"engine exception {ex['engine_error']}", "trace": ex.get("trace")})
             continue
-        fdesc = info.describe()
-        fdesc.update({"contract": c.id, "paths": x.stats["paths"], "exits": x.exits, "ints": c.ints})
+        fdesc = dict(ex["fdesc"])
+        fdesc.update({"contract": c.id, "paths": ex["stats"]["paths"], "exits": ex["exits"], "ints": c.ints})
         functions.append(fdesc)
-        if x.unsupported:
-            undecided.append({"contract": c.id, "reason": f"unsupported: {x.unsupported}"})
+        if ex.get("unsupported"):
+            undecided.append({"contract": c.id, "reason": f"unsupported: {ex['unsupported']}"})
             continue
-        n_total = len(x.obligations) + len(x.trivial)
-        if n_total == 0:
+        if len(ex["obligations"]) + len(ex["trivial"]) == 0:
             errors.append(f"{c.id}: zero obligations generated (vacuous)")
             continue
-        trivial_count += len(x.trivial)
+        trivial_count += len(ex["trivial"])
         counts = {}
-        for ob in x.obligations:
-            k = counts.get(ob.kind, 0)
-            counts[ob.kind] = k + 1
-            name = f"{pid}/{c.target}/{c.id}/{ob.kind}#{k}"
-            ob.name = name
-            meta[name] = {"contract": c, "ob": ob, "descr": ob.descr, "line": ob.lineno, "kind": ob.kind}
-            jobs.append((name, ob.smt2(), timeout_ms))
-        for k, (kind, descr, lineno) in enumerate(x.trivial):
+        for kind, descr, lineno, smt2 in ex["obligations"]:
+            k = counts.get(kind, 0)
+            counts[kind] = k + 1
+            name = f"{pid}/{c.target}/{c.id}/{kind}#{k}"
+            meta[name] = {"contract": c, "descr": descr, "line": lineno, "kind": kind}
+            jobs.append((name, smt2, timeout_ms))
+        for k, (kind, descr, lineno) in enumerate(ex["trivial"]):
             name = f"{pid}/{c.target}/{c.id}/{kind}#t{k}"
-            meta[name] = {"contract": c, "ob": None, "descr": descr, "line": lineno, "kind": kind, "trivial": True}
-        # must-fail canary: some exit path must be satisfiable
-        if c.canary and x.obligations:
-            ob = x.obligations[-1]
-            can = Obligation(f"{pid}/{c.id}/canary", "canary", "path condition satisfiable (must be sat)", ob.assumptions, z3.BoolVal(False))
-            jobs.append((can.name, can.smt2(), min(timeout_ms, 10000)))
-            canaries.append(can.name)
+            meta[name] = {"contract": c, "descr": descr, "line": lineno, "kind": kind, "trivial": True}
+        if c.canary and ex.get("canary"):
+            cname = f"{pid}/{c.id}/canary"
+            jobs.append((cname, ex["canary"], min(timeout_ms, 10000)))
+            canaries.append(cname)
 
     for lem in lemmas:
         try:
